@@ -123,13 +123,13 @@ Section Answer.
     intros Hr Hfb Hd Hsend Hm Hs Hts Happ. unfold l_uplink. rewrite Hr. unfold process_message. rewrite stale_load, Hs.
     destruct (pm_counter st (load st r) f n) as [[st1 dev1]|] eqn:Ec.
     2:{ exfalso. unfold pm_counter in Ec. cbn [load d_fup] in Ec. destruct (d_fup r <=? fcnt f) eqn:Ecmp; [|discriminate].
-        unfold l_advance_fup in Ec. rewrite Hr, Ecmp in Ec. discriminate. }
-    destruct (pm_counter_spec st (load st r) f n st1 dev1 r Hr eq_refl eq_refl eq_refl Ec)
+        unfold l_advance_fup in Ec. rewrite Hr, Ecmp in Ec. cbn [load d_nwkskey] in Ec. rewrite keq_refl in Ec. discriminate. }
+    destruct (pm_counter_spec st (load st r) f n st1 dev1 r Hr eq_refl eq_refl eq_refl eq_refl Ec)
       as (r1 & R1 & S1 & Fd1 & Eu1 & Kn1 & Ka1 & Ad1 & I1 & O1 & B1 & N1 & Hc).
     cbn [load d_eui d_nwkskey d_appskey d_addr d_appeui d_fdn] in *.
     assert (Hae : d_appeui dev1 = d_appeui r).
     { unfold pm_counter in Ec. cbn [load d_fup d_fdn d_keywarn] in Ec. destruct (d_fup r <=? fcnt f).
-      - destruct (l_advance_fup _ _ _ _) as [x [[]|]]; cbn [load d_relaxed] in Ec; try discriminate.
+      - destruct (l_advance_fup _ _ _ _ _) as [x [[]|]]; cbn [load d_relaxed] in Ec; try discriminate.
         + destruct (d_relaxed r); [|discriminate]. injection Ec as _ <-. reflexivity.
         + injection Ec as _ <-. reflexivity.
       - injection Ec as _ <-. reflexivity. }
@@ -149,7 +149,8 @@ Section Answer.
     unfold encoder_data.
     destruct (encode_downlink_ok dev1 p 0 Pt Pp Pl) as [b0 T]. rewrite T.
     assert (Hrow5 : ds_row st5 = Some r1) by (rewrite R5, Q1; unfold st2; cbn [ds_row with_inbox]; exact R1).
-    unfold l_next_fdn. rewrite Hrow5.
+    assert (Hk5 : d_nwkskey r1 = d_nwkskey dev1) by (destruct S1 as (_ & _ & _ & _ & Sk & _); congruence).
+    unfold l_next_fdn. rewrite Hrow5, Hk5, keq_refl. cbn [negb].
     destruct (trial_decides E E_len dev1 p b0 (d_nwkskey dev1) (d_appskey dev1) (d_fdn r1) T) as [buf Em]. rewrite Em.
     pose proof (encode_message_length E D _ _ _ _ Em) as L.
     replace (length buf =? 0)%nat with false by (symmetry; apply Nat.eqb_neq; lia).
